@@ -166,7 +166,7 @@ def ports_part(ctx, which):
         D(ctx, "eventports", ["gen", "--exhaustive", 2 if quick else 3], cl, label="eventports.exhaustive", shrink=False, line_oracle=panic_oracle)
         D(ctx, "eventports", ["gen", "--seed", ctx.seed, "--cases", 1200 if quick else 8000, "--len", 60 if quick else 80], cl,
           label="eventports.random", line_oracle=panic_oracle)
-        D(ctx, "eventports", ["gen", "--seed", ctx.seed + 5, "--cases", 90 if quick else 2500, "--len", 40 if quick else 60, "ipc"], cl,
+        D(ctx, "eventports", ["gen", "--seed", ctx.seed + 5, "--cases", 90 if quick else 1500, "--len", 40 if quick else 60, "ipc"], cl,
           label="eventports.ipc", line_oracle=panic_oracle)
         if not quick:
             D(ctx, "eventports", ["gen", "--exhaustive", 2, "ipc"], cl, label="eventports.exhaustive-ipc", shrink=False, line_oracle=panic_oracle)
@@ -174,7 +174,7 @@ def ports_part(ctx, which):
         cl = make_classify(set())
         D(ctx, "eventports", ["gen", "--seed", ctx.seed + 1, "--cases", 1200 if quick else 8000, "--len", 60 if quick else 80, "limits"], cl,
           label="eventports.limits", line_oracle=limits_oracle)
-        D(ctx, "eventports", ["gen", "--seed", ctx.seed + 2, "--cases", 90 if quick else 2000, "--len", 40 if quick else 60, "limits", "ipc"], cl,
+        D(ctx, "eventports", ["gen", "--seed", ctx.seed + 2, "--cases", 90 if quick else 1200, "--len", 40 if quick else 60, "limits", "ipc"], cl,
           label="eventports.limits-ipc", line_oracle=limits_oracle)
         D(ctx, "eventports", ["gen", "--exhaustive", 2 if quick else 3], cl, label="eventports.exhaustive", shrink=False, line_oracle=limits_oracle)
     elif which == "C17":
@@ -187,7 +187,7 @@ def ports_part(ctx, which):
         else:
             D(ctx, "eventports", ["gen", "--exhaustive", 1, "shutdown", "ipc"], cl, label="eventports.shutdown-permutations", shrink=False,
               line_oracle=shutdown_oracle)
-            D(ctx, "eventports", ["gen", "--seed", ctx.seed, "--cases", 3000, "shutdown", "ipc"], cl, label="eventports.shutdown-random",
+            D(ctx, "eventports", ["gen", "--seed", ctx.seed, "--cases", 2000, "shutdown", "ipc"], cl, label="eventports.shutdown-random",
               line_oracle=shutdown_oracle)
     else:
         raise ValueError(which)
